@@ -9,7 +9,7 @@ PROP = dict(
     assumptions=["no selected source is Unsynchronized (guaranteed by select, see C03)"],
     harnesses=[
         H(NP, "c04", "c04_vote", "vote_leap == Some(l) iff count(l)*2 > number of sources with known leap status, None otherwise (independent recount)", timeout=300),
-        H("np_algo_h", "cupd", "cupd_consensus_step", "update_clock hands exactly the voted leap indicator to the kernel and keeps the previous one without a majority", timeout=900),
+        H("np_algo_h", "cupd", "cupd_consensus_step", "update_clock hands exactly the voted leap indicator to the kernel and keeps the previous one without a majority", timeout=900, native_check="native::native_leap_applied_exactly"),
     H("np_algo_h", "cupd", "cupd_no_consensus", "no consensus: previous leap indicator kept", timeout=600),
 ],
 )
